@@ -107,7 +107,7 @@ def judge_boundary(op: Any) -> None:
 
 
 def case(rng: Any, ctx: Ctx, index: int) -> None:
-    s, op = rand_operator(rng, ctx, atoms=0.7, lazy_inverse=False)
+    s, op = rand_operator(rng, ctx, atoms=0.7, lazy_inverse=False, index=index)
     # visit the operator and every operator nested in it (each instance judged once)
     seen: list[Any] = []
     dense.walk(op, seen.append)
